@@ -15,7 +15,8 @@
 (***************************************************************************)
 EXTENDS LspValue
 
-CONSTANTS NEvents
+CONSTANTS NEvents,
+          NInter      \* generation: suspension points for the interleaved loads
 
 Lists == <<"requests", "notifications", "structures", "enumerations", "typeAliases">>
 
@@ -87,6 +88,9 @@ Cases == {[c |-> "eq", kind |-> k] : k \in StructuralKinds \cup AnnotationKinds 
                  k \in BadKinds, t \in Targets, p \in Plugins, pos \in {"only", "first", "last"}}
          \cup {[c |-> "eqg", def |-> dn, key |-> ky, op |-> o] : dn \in Defs, ky \in UNION {KeysOf(x) : x \in Defs}, o \in GOps}
          \cup {[c |-> "load", files |-> n] : n \in {"full", "trimmed", "two", "three", "extension", "zoo", "zoo_ascii_locale", "zoo_twice"}}
+         \* two loads in one fresh process, the second one started while the first is suspended after its at-th line
+         \* of generator/model.py (first-use initialisation inside the model layer is then half done)
+         \cup {[c |-> "interleaved", at |-> k] : k \in 1..NInter}
          \* several operations on the SAME in-memory documents in one process: Load; Load; Eq; Load(first only)
          \cup {[c |-> "session", files |-> n] : n \in {"two", "three", "extension", "zoo_twice"}}
 Init == svCase \in Cases /\ svL = 0
